@@ -54,37 +54,49 @@ TrReg ==
      ELSE UNCHANGED <<vars, abs>>
   /\ UNCHANGED <<outs, louts>>
 
+\* ctx cancel.  If the call had already been woken as usurped, the select may take either branch, so the
+\* usurped return (a silent LoopStep taken earlier) followed by a no-op cancel is also a legal explanation.
 TrCancel ==
   /\ Is("cancel") /\ Adv
-  /\ SessionCancel(Ev.c)
-  /\ abs' = AbsCleanup(Ev.c)
+  /\ \/ /\ SessionCancel(Ev.c)
+        /\ abs' = AbsCleanup(Ev.c)
+     \/ /\ cst[Ev.c] = "exited"
+        /\ UNCHANGED <<vars, abs>>
   /\ UNCHANGED <<outs, louts>>
+
+\* a request consumed by the read goroutine of a call whose loop has already returned (usurped): no effect
+ExitedNoop(c) == cst[c] = "exited" /\ UNCHANGED <<vars, abs>>
 
 Rel(c, st) == LET a == abs[KeyOf(c)] IN IF st = a THEN "cur" ELSE IF st < a THEN "old" ELSE "future"
 
 TrSend ==
   /\ Is("send") /\ Adv
   /\ LET c == Ev.c  rel == Rel(c, Ev.st)  ok == Ev.sig = "ok" IN
-     /\ HandleSend(c, rel, Ev.n, ok)
-     /\ abs' = IF ~ok \/ rel = "future" THEN AbsCleanup(c) ELSE abs
+     \/ /\ HandleSend(c, rel, Ev.n, ok)
+        /\ abs' = IF ~ok \/ rel = "future" THEN AbsCleanup(c) ELSE abs
+     \/ ExitedNoop(c)
   /\ UNCHANGED <<outs, louts>>
 
 TrAck ==
   /\ Is("ack") /\ Adv
   /\ LET c == Ev.c  rel == Rel(c, Ev.st) IN
-     /\ HandleAck(c, rel, Ev.n)
-     /\ abs' = IF rel = "future" THEN AbsCleanup(c) ELSE abs
+     \/ /\ HandleAck(c, rel, Ev.n)
+        /\ abs' = IF rel = "future" THEN AbsCleanup(c) ELSE abs
+     \/ ExitedNoop(c)
   /\ UNCHANGED <<outs, louts>>
 
 TrClear ==
   /\ Is("clear") /\ Adv
   /\ LET c == Ev.c  rel == Rel(c, Ev.st) IN
-     /\ HandleClear(c, rel, Ev.n)
-     /\ abs' = IF rel = "future" THEN AbsCleanup(c) ELSE abs
+     \/ /\ HandleClear(c, rel, Ev.n)
+        /\ abs' = IF rel = "future" THEN AbsCleanup(c) ELSE abs
+     \/ ExitedNoop(c)
   /\ UNCHANGED <<outs, louts>>
 
 TrLReg == Is("lreg") /\ Adv /\ ListenRegister(Ev.c) /\ UNCHANGED <<abs, outs, louts>>
-TrLCancel == Is("lcancel") /\ Adv /\ ListenCancel(Ev.c) /\ UNCHANGED <<abs, outs, louts>>
+TrLCancel == /\ Is("lcancel") /\ Adv
+             /\ (ListenCancel(Ev.c) \/ (lst[Ev.c] = "exited" /\ UNCHANGED vars))
+             /\ UNCHANGED <<abs, outs, louts>>
 
 \* what one loop iteration writes to the call's stream, in the code's order
 Emitted(c) ==
